@@ -145,6 +145,36 @@ example : Reach (fun _ => 1) 11
     decide
   exact Reach.steps exampleRun (Reach.init _) h
 
+/-- **Exactly at `max_p (last_activity_p + T)`** — the two directions of `idle_closed_at` put together
+along a run. From any reachable state in which no permit of `c` is around (no keep-alive substream exists
+or is being opened, nothing in flight), let nothing happen but the idle mechanism — time passing, as far as
+the environment hypothesis allows, and keep-alive polls of any protocols, in any order and number — ending
+in a state where every protocol has polled. Then the loop has exited **iff** for every protocol that held
+`c` at the start its timeout has elapsed since its last activity: not at any earlier time, and at that time
+for sure. (Protocols that did not hold `c` at the start have let go at their own `last_activity + T`
+earlier, by `idle_closed_at` 1 and 3, so this is `t₀ + T` for `t₀` the last activity of all.) -/
+theorem idle_run_closed_at {peer : Nat → Nat} {n n' : Nat} {s s' : Sys} (hr : Reach peer n s) (c : Nat)
+    (hperm : permits s c = 0) (ls : List Label) (hall : ∀ l ∈ ls, idleLabel l = true)
+    (hst : Sys.steps peer n s ls = some (n', s')) (hpolled : ∀ svc' ∈ s'.svcs, Polled svc' s'.now) :
+    exits s' c = true ↔
+      ∀ svc ∈ s.svcs, 0 < svc.holds c → ∀ la, aget svc.tr.last c = some la → la + svc.T ≤ s'.now :=
+  idle_run_exits_iff hr c hperm ls hall hst hpolled
+
+/-- Non-vacuity: from the state of `exampleRun` at time 100 (right after protocol 1 was downgraded; protocol
+0 holds `10` with `last_activity = 50`), idle runs ending at 149 and at 150, every protocol polled: the
+first has not exited, the second has; the hypotheses of the theorem hold for both. -/
+example :
+    let peer : Nat → Nat := fun _ => 1
+    let r := Sys.steps peer 0 (Sys.init [(true, 100), (false, 100)]) (List.take 15 exampleRun)
+    let s := (r.map (·.2)).getD {}
+    let a := ((Sys.steps peer 11 s [.advance 49, .poll 1, .poll 0]).map (·.2)).getD {}
+    let b := ((Sys.steps peer 11 s [.advance 49, .poll 0, .advance 1, .poll 0, .poll 1]).map (·.2)).getD {}
+    s.now = 100 ∧ permits s 10 = 0 ∧ (s.svcs.map (·.holds 10)) = [1, 0] ∧
+    (s.svcs.map (fun v => aget v.tr.last 10)) = [some 50, none] ∧
+    a.now = 149 ∧ exits a 10 = false ∧ b.now = 150 ∧ exits b 10 = true ∧
+    (b.svcs.map (fun v => v.tr.timers)) = [[], []] ∧ (a.svcs.map (fun v => v.tr.timers)) = [[⟨10, some 150, 50⟩], []] := by
+  decide
+
 /-- Non-vacuity, lazily started sleeps and the hypothesis: right after `open_substream` on a connection
 whose handle had been downgraded (tracker entry gone) the new sleep is pushed but not started, and the
 clock may not advance until the protocol has polled. -/
@@ -320,6 +350,7 @@ end Litep2pVerif.Props.C09
 
 #print axioms Litep2pVerif.Props.C09.held_not_closed
 #print axioms Litep2pVerif.Props.C09.idle_closed_at
+#print axioms Litep2pVerif.Props.C09.idle_run_closed_at
 #print axioms Litep2pVerif.Props.C09.poll_settles
 #print axioms Litep2pVerif.Props.C09.ping_no_prolong
 #print axioms Litep2pVerif.Props.C09.primary_secondary
